@@ -175,6 +175,9 @@ func (c *shardedMapOf[V]) ExpireAll(ctx context.Context) {
 	startTS := ts(start)
 	cnt := 0
 
+	// Entries get an expiration time even in a cache with UnlimitedTTL, janitor has to scan them.
+	atomic.AddInt64(&c.t.expirationsSet, 1)
+
 	for i := range c.hashedBuckets {
 		b := &c.hashedBuckets[i]
 		b.Lock()
@@ -347,6 +350,10 @@ func (c *ShardedMapOf[V]) Restore(r io.Reader) (int, error) {
 			}
 
 			return n, err
+		}
+
+		if e.E != 0 {
+			atomic.AddInt64(&c.t.expirationsSet, 1)
 		}
 
 		h := xxhash.Sum64(e.K)
